@@ -220,6 +220,15 @@ class K:
             return
         cur().prove(name, L._b(cond), kind, scope=self.con.scope)
 
+    def fingerprint(self, name, term):
+        """record the (simplified) term of a result that must not depend on the interpreter's hash seed; the
+        runner compares the recorded texts between runs under different PYTHONHASHSEED values (C09)"""
+        if self.mode == "native":
+            return
+        e = term.e if isinstance(term, T) else term
+        txt = str(z3.simplify(e)) if isinstance(e, z3.ExprRef) else repr(e)
+        cur().memo.setdefault("fingerprints", {}).setdefault(name, set()).add(txt)
+
     def fail(self, name, detail=""):
         """an outcome the contract forbids on this path (e.g. an exception that `raises` does not allow)"""
         if self.mode == "native":
@@ -365,6 +374,11 @@ K.absfunc = _k_absfunc
 def _k_close(self, a, b, tol=1e-4):
     """equality over the reals; native mode: floating-point tolerance (rounding is outside the model)"""
     if self.mode == "native":
+        fa, fb = float(a), float(b)
+        if fa != fa or fb != fb:  # NaN is outside the model of the reals: both sides must agree on it
+            return fa != fa and fb != fb
+        if fa in (float("inf"), float("-inf")) or fb in (float("inf"), float("-inf")):
+            return fa == fb
         return abs(a - b) <= tol * (1 + abs(a) + abs(b))
     return L.eq(a, b)
 
